@@ -306,6 +306,39 @@ struct Expect {
 
 // S_d for one axis.  Statement: coordinate c with p <= c <= p+e (inclusive) / p <= c < p+e (exclusive); a zero or
 // absent extent selects the single first element at or after the position; unspecified -> all elements.
+// The axes of a built array are changed IN PLACE through freshly fetched dimension handles (range: every tick t becomes 2t + 0.75;
+// sampled: interval doubled, offset + 0.75 - both keep the axis strictly ascending and exactly representable where the old one was);
+// the coordinates are read back from the library.  Returns the number of axes changed.  Retrieval after such a change must
+// answer for the NEW axis (nothing may remember the old one).
+inline int mutate_axes(Built &r) {
+    int changed = 0;
+    for (size_t d = 0; d < r.axes.size(); d++) {
+        Dimension dim = r.array.getDimension(d + 1);
+        Axis &ax = r.axes[d];
+        if (dim.dimensionType() == DimensionType::Range) {
+            RangeDimension rd = dim.asRangeDimension();
+            if (rd.alias()) continue;
+            std::vector<double> t = rd.ticks();
+            for (double &v : t) v = 2.0 * v + 0.75;
+            rd.ticks(t);
+            ax.c = r.array.getDimension(d + 1).asRangeDimension().ticks();
+            changed++;
+        } else if (dim.dimensionType() == DimensionType::Sample) {
+            SampledDimension sd = dim.asSampledDimension();
+            double off = sd.offset() ? *sd.offset() : 0.0;
+            sd.samplingInterval(sd.samplingInterval() * 2.0);
+            sd.offset(off + 0.75);
+            SampledDimension again = r.array.getDimension(d + 1).asSampledDimension();
+            size_t n = ax.c.size();
+            ax.c.clear();
+            for (size_t i = 0; i < n; i++) ax.c.push_back(again.positionAt(i));
+            changed++;
+        }
+        for (size_t i = 0; i + 1 < ax.c.size(); i++) if (!(ax.c[i] < ax.c[i + 1])) return -1;   // not usable as a reference axis any more
+    }
+    return changed;
+}
+
 inline std::vector<size_t> ref_axis(const Axis &a, bool specified, double p, bool has_e, double e, RangeMatch m) {
     std::vector<size_t> S;
     if (!specified) { for (size_t i = 0; i < a.n; i++) S.push_back(i); return S; }
